@@ -53,22 +53,23 @@ def json_same(a, b):
 class Read(Harness):
     prop = "C18"; opname = "geo_read"
     goals = ["geojson.py:GeoJSON.read", "geojson.py:GeoJSON._check_raw_feature"]
-    def __init__(self, maxn):
-        self.maxn = maxn; self.name = f"C18.read.n{maxn}"
-        self.bounds = {"features": f"0..{maxn}", "property keys": "ragged subsets of p (int), q (float), s (str), t (bool), geometry",
+    def __init__(self, maxn, slim=False):
+        self.maxn = maxn; self.slim = slim; self.name = f"C18.read.n{maxn}" + (".slim" if slim else "")
+        self.bounds = {"features": f"0..{maxn}" if not slim else str(maxn), "property keys": "ragged subsets of p (int), q (float), s (str), t (bool), geometry"
+                       if not slim else "each feature has p and q, p alone, or nothing (a key can be present, absent, present again)",
                        "geometry": "null or a Point object", "extra top-level members": "from {name, crs, items}"}
         self.symbolic = ["property values"]; self.choice_dims = ["feature shapes", "null pattern", "extra members"]
     def build(self, ctx):
-        n = choice("n", range(self.maxn + 1))
+        n = choice("n", range(self.maxn + 1)) if not self.slim else self.maxn
         kinds = {"p": "int", "q": "float", "s": "str", "t": "bool", "geometry": "int"}
         feats = []
         for i in range(n):
             props = {}
-            for k in choice(f"keys{i}", [("p", "q"), ("s", "p"), ("t",), ("q", "geometry"), ()]):
-                props[k] = None if choice(f"null{i}{k}", [False, True]) else jvalue(ctx, kinds[k], f"v{i}{k}")
-            feats.append({"type": "Feature", "properties": props, "geometry": None if choice(f"g{i}", [False, True]) else dict(POINT)})
+            for k in choice(f"keys{i}", [("p", "q"), ("s", "p"), ("t",), ("q", "geometry"), ()] if not self.slim else [("p", "q"), ("p",), ()]):
+                props[k] = None if (not self.slim and choice(f"null{i}{k}", [False, True])) else jvalue(ctx, kinds[k], f"v{i}{k}")
+            feats.append({"type": "Feature", "properties": props, "geometry": None if (self.slim or choice(f"g{i}", [False, True])) else dict(POINT)})
         coll = {"type": "FeatureCollection"}
-        extra = choice("extra", [(), ("name",), ("crs", "items")])
+        extra = choice("extra", [(), ("name",), ("crs", "items")]) if not self.slim else ()
         for k in extra:
             coll[k] = {"name": "layer", "crs": {"type": "name", "properties": {"name": "EPSG:4326"}}, "items": [1, 2]}[k]
         coll["features"] = feats
@@ -197,4 +198,4 @@ class RoundTrip(Harness):
 
 def harnesses(tier):
     n = 2 if tier == "quick" else 3
-    return [Read(n), Write(n), RoundTrip(n)]
+    return [Read(n), Write(n), RoundTrip(n)] + ([Read(3, slim=True)] if tier == "quick" else [Read(4, slim=True)])
